@@ -9,6 +9,8 @@ CLAIMED = {
          "decoder-equals-spec theorem on explicit cells, CRC residue theorem (65,536-state sweep), slice lemmas; correspondence check"),
  "C03": ("5/C03", "As C02 for telemetry with timestamps of ANY length (decoder configuration = timestamp length) and the service-17 wrapper; declared length too small for header+timestamp+CRC rejected (two defects found and repaired).",
          "decoder-equals-spec theorem, CRC residue, slice lemmas; correspondence check"),
+ "C04": ("5/C04", "For messages of any length: CRC residue, linearity and detection of every error pattern confined to 16 consecutive bit positions (all single-bit flips and bursts <= 16 bits) are theorems about the bitwise CRC; hence every such corruption of a packed PUS TC/TM (any timestamp length) or CRC-flagged File Data PDU outside the length-determining fields is rejected with a documented error and check_pus_crc agrees; pack output always passes. The CRC-flag-bit flip is proved to be accepted (protocol-inherent) and recorded as a known finding. Directive PDUs: via the generic CFDP lemma as their decoders are added.",
+         "linearity of the register update by a 65,536-case basis sweep, residue sweep, complete sweeps of 1/2/3-octet error windows (8 x 65,535), lifted by induction over message length; crcmod tied exhaustively on the linear basis; fault enumeration on the implementation"),
  "C05": ("5/C05", "For every flag combination, width pair in {1,2,4,8}^2, ID/sequence value and data-field length PduHeader.pack is proved equal to the 727.0-B-5 layout (length 4+2*idw+seqw) and PduHeader.unpack equal, on every octet string, to the standard's decoder with the documented refusals; constructor and setters accept exactly the documented ranges. Tied by exhaustive correspondence over 2^7 x 16 configurations and all 2^16 (octet0, octet3) pairs.",
          "sweeps of octets 0 and 3 + be_encode lemmas for all widths; correspondence check"),
  "C07": ("5/C07", "FileDataPdu.pack proved equal to header ++ optional metadata ++ offset ++ data ++ CRC with the data-field length covering all of it; construct->pack->unpack (any suffix) returns exactly the same offset, metadata and file data in an equal PDU that re-packs identically; every accepted octet string re-encodes to its own octets; metadata > 63 refused; max-segment formula exact (four defects repaired).",
